@@ -787,8 +787,30 @@ func c05GenScn(t *rapid.T, o c05GenOpt, excludedCase func(id string)) *c05Scn {
 			sTail = len(s.U2C) - 1 // the greeting must come before
 		}
 	}
+	// A "slow" opening whose long pause comes after the whole first flight (banner, then
+	// silence): the pause may or may not be spent inside a probe, so nobody may half-close
+	// before the client is past it — otherwise the pause alone outlasts the 10 s grace
+	// period the statement grants, and the relay may rightfully end the flow (at an
+	// instant that can even tie with the client's own FIN). The first closer therefore
+	// waits for a byte written after the pause; if there is none, the client closes first.
+	gateAtEnd := s.Open == c05OpenSlow && slowCut == len(first)
+	if gateAtEnd && cRest == 0 && firstCloser != "client" {
+		if s.Close == c05CloseClientNever {
+			s.Close = c05CloseServerNever
+		} else {
+			s.Close = c05CloseClient
+		}
+		firstCloser = "client"
+		if len(s.U2C) > 0 {
+			sTail = rapid.IntRange(0, len(s.U2C)).Draw(t, "sTail")
+		}
+	}
 	if firstCloser == "server" && cRest > 0 {
-		cTail = rapid.IntRange(0, cRest).Draw(t, "cTail")
+		hi := cRest
+		if gateAtEnd {
+			hi = cRest - 1 // keep >= 1 body byte after the pause for the upstream to wait for
+		}
+		cTail = rapid.IntRange(0, hi).Draw(t, "cTail")
 	}
 	cBody := c05Cuts(t, "cBody", cRest-cTail, nil)
 	sBody := c05Cuts(t, "sBody", len(s.U2C)-sTail, nil)
@@ -857,7 +879,11 @@ func c05GenScn(t *rapid.T, o c05GenOpt, excludedCase func(id string)) *c05Scn {
 		cs = append(cs, c05Step{Op: c05OpCloseWrite})
 		closeSecond(&ss, sTail, false, 0, s.Close == c05CloseServerNever, "s2")
 	case "server":
-		jDraw := rapid.IntRange(0, len(cBody)).Draw(t, "cGapUpTo")
+		jLo := 0
+		if gateAtEnd {
+			jLo = 1
+		}
+		jDraw := rapid.IntRange(jLo, len(cBody)).Draw(t, "cGapUpTo")
 		cCum := build(&cs, cBody, "cBody", jDraw)
 		build(&ss, sBody, "sBody", -1)
 		base := len(first)
@@ -882,7 +908,11 @@ func c05GenScn(t *rapid.T, o c05GenOpt, excludedCase func(id string)) *c05Scn {
 		build(&ss, sBody, "sBody", 0)
 		if len(first) > 0 {
 			// (a client that is slow to start must not find the grace period already running)
-			ss = append(ss, c05Step{Op: c05OpWaitRecv, N: len(first)})
+			n := len(first)
+			if gateAtEnd {
+				n++ // cRest > 0 here
+			}
+			ss = append(ss, c05Step{Op: c05OpWaitRecv, N: n})
 		}
 		cs = append(cs, c05Step{Op: c05OpCloseWrite})
 		ss = append(ss, c05Step{Op: c05OpCloseWrite})
